@@ -163,6 +163,23 @@ extern struct op more_ops[];
 extern struct op h5_ops[];
 #endif
 
+/* SZV_HEAP_PRIME=<w>: before every case, allocate and free blocks of many sizes filled with the 32-bit
+ * word w, so that the library's next malloc()s of those sizes return memory holding plausible stale values
+ * (an uninitialised int field then reads as w) -- the "prior heap contents" of C04 */
+static void prime_heap(void)
+{
+	const char* e = getenv("SZV_HEAP_PRIME");
+	if (!e) return;
+	uint32_t w = (uint32_t)strtoul(e, NULL, 16);
+	enum { NB = 400 }; void* blocks[NB];
+	for (int i = 0; i < NB; i++) {
+		size_t sz = 16 + 8 * (size_t)(i % 100) + (i >= 300 ? 4096 : 0);
+		blocks[i] = malloc(sz);
+		for (size_t j = 0; j + 4 <= sz; j += 4) memcpy((char*)blocks[i] + j, &w, 4);
+	}
+	for (int i = 0; i < NB; i++) free(blocks[i]);
+}
+
 int main(int argc, char** argv)
 {
 	size_t cap = 1 << 20; char* line = (char*)malloc(cap);
@@ -183,6 +200,7 @@ int main(int argc, char** argv)
 		char* opname = tok;
 		while ((tok = strtok_r(NULL, " ", &save)) && n < 64) args[n++] = tok;
 		int found = 0;
+		prime_heap();
 		for (struct op* o = base_ops; o->name && !found; o++) if (!strcmp(o->name, opname)) { o->fn(n, args); found = 1; }
 		for (struct op* o = more_ops; o->name && !found; o++) if (!strcmp(o->name, opname)) { o->fn(n, args); found = 1; }
 #ifdef WITH_H5
